@@ -276,12 +276,25 @@ def run(chk, replay=None):
                 s = SCSI(dev)
                 dev.fill = fill
                 try:
-                    res = s.modesense6(page_code=gen_page, sub_page_code=1 if fields is CTRLEXT else 0).result
+                    cmdobj = s.modesense6(page_code=gen_page, sub_page_code=1 if fields is CTRLEXT else 0)
+                    res = cmdobj.result
                     before = copy.deepcopy(res)
                     old = res["mode_pages"][0][name]
                     new = (old + 1 + rng.randrange(mx)) % (mx + 1) if mx > 0 else old
-                    res["mode_pages"][0][name] = new
+                    mt = None
+                    if trial % 2:
+                        # the caller edits through the command it holds (cmd.result[...] = v), a header field too
+                        mt = (int(cmdobj.result["medium_type"]) + 1 + rng.randrange(254)) & 0xFF
+                        cmdobj.result["medium_type"] = mt
+                        cmdobj.result["mode_pages"][0][name] = new
+                        res = cmdobj.result
+                        before["medium_type"] = mt
+                    else:
+                        res["mode_pages"][0][name] = new
                     s.modeselect6(res)
+                    if mt is not None and cur["select"][1] != mt:
+                        viol("ReadModifyWrite", "ModeSense6", "medium_type",
+                             {"set through cmd.result": mt, "written": cur["select"][1]})
                 except Exception as ex:
                     viol("ReadModifyWrite", "ModeSense6", name, {"raised": repr(ex)[:100]})
                     continue
